@@ -174,6 +174,24 @@ func EventType(event any) string {
 	return reflect.TypeOf(event).String()
 }
 
+// eventTypeName returns the name EventType reports for events of the static
+// type T, so that APIs selecting stored events by Go type (SubscribeWithReplay,
+// RegisterUpcast) agree with the name under which events are persisted.
+func eventTypeName[T any]() string {
+	t := reflect.TypeOf((*T)(nil)).Elem()
+	switch t.Kind() {
+	case reflect.Interface:
+		// no concrete event to ask
+		return t.String()
+	case reflect.Pointer:
+		// ask a pointer to a zero value: a nil pointer cannot be asked for
+		// a name defined on the value receiver
+		return EventType(reflect.New(t.Elem()).Interface())
+	}
+	var zero T
+	return EventType(zero)
+}
+
 // Observability is an optional interface for metrics and tracing.
 // Implementations can track event publishing, handler execution, and errors.
 //
